@@ -965,6 +965,13 @@ udp_pipe_send(void *arg, nni_aio *aio)
 
 	nni_aio_reset(aio);
 	nni_mtx_lock(&ep->mtx);
+	// Sends complete at once, but they still have to be refused on an aio
+	// that was stopped or aborted (pipe teardown): otherwise the owner's
+	// send/get callbacks keep re-arming each other after pipe_stop.
+	if (!nni_aio_start(aio, NULL, NULL)) {
+		nni_mtx_unlock(&ep->mtx);
+		return;
+	}
 	if ((nni_msg_len(msg) + nni_msg_header_len(msg)) > p->sndmax) {
 		nni_mtx_unlock(&ep->mtx);
 		// rather failing this with an error, we just drop it on
